@@ -182,6 +182,7 @@ func c14Evict(c *Ctx) {
 		if err != nil {
 			panic(err)
 		}
+		desc0 := "fresh table"
 		drain := func(src int) int64 {
 			var k int64
 			for k <= burst+1 {
@@ -192,6 +193,19 @@ func c14Evict(c *Ctx) {
 			}
 			return k
 		}
+		// pre-phase: some of the sources were seen long ago and have expired; they come back through the
+		// "entry found but expired" path of the table when the fill phase reaches them
+		if r.IntN(2) == 0 {
+			for s := 0; s < capacity; s++ {
+				if r.IntN(2) == 0 {
+					c14Serve(tl, n, s, 1)
+					advance(time.Second)
+				}
+			}
+			advance(rateTTL(rs) + time.Duration(1+r.IntN(5))*time.Second)
+			desc0 = "with expired-and-returning sources"
+			c.Count("evict_cases_with_expired_returning_sources", 1)
+		}
 		// fill: sources 0..capacity-1 created and last used in this order, one whole second apart, each drained
 		for s := 0; s < capacity; s++ {
 			if got := drain(s); got != burst {
@@ -201,7 +215,7 @@ func c14Evict(c *Ctx) {
 			advance(time.Second + time.Duration(r.IntN(1000))*time.Microsecond)
 		}
 		c.Eval()
-		desc := map[string]any{"capacity": capacity, "rate": rs, "newcomers": 0}
+		desc := map[string]any{"capacity": capacity, "rate": rs, "newcomers": 0, "shape": desc0}
 		// newcomers arrive one by one; each insertion may forget exactly the oldest remaining source
 		newcomers := 1 + r.IntN(capacity)
 		desc["newcomers"] = newcomers
